@@ -3,6 +3,7 @@ import PyAirtouch.Model.Crc
 import PyAirtouch.Model.SockValidate
 import PyAirtouch.Model.SockXValidate
 import PyAirtouch.Model.Heartbeat
+import PyAirtouch.Model.HeartbeatX
 import PyAirtouch.Model.Codecs
 import PyAirtouch.Model.CodecsWF
 import PyAirtouch.Model.Discovery
@@ -100,6 +101,29 @@ def answerPure (ws : List String) : String :=
       let h := Model.Heartbeat.simulateFull i t rt ins
       " ; ".intercalate (h.trace.map Spec.Heartbeat.HEv.toText) ++ " | " ++ " ".intercalate (h.expiries.map toString)
     | _, _, _, _ => "bad-op"
+  -- `hb` with refused heartbeats (`Model/HeartbeatX.lean`): items `refuse <t>` (the socket refuses a send issued at
+  -- tick t) and `refusedrop <t>` (... and reports the link down right after it) are marks, not timed inputs
+  | "hbx" :: i :: t :: rt :: rest =>
+    let parseIn (ws : List String) : Option Model.Heartbeat.HIn :=
+      match ws with
+      | ["conn", b, t] => t.toNat?.map (Model.Heartbeat.HIn.conn (b = "1"))
+      | ["start", t] => t.toNat?.map .start
+      | ["stop", t] => t.toNat?.map .stop
+      | ["resp", t] => t.toNat?.map .resp
+      | ["resetDone", t] => t.toNat?.map .resetDone
+      | ["finish", t] => t.toNat?.map .finish
+      | _ => none
+    let items := Spec.Heartbeat.splitSemi rest
+    let isMark (ws : List String) : Bool := match ws with | ["refuse", _] | ["refusedrop", _] => true | _ => false
+    let marks (k : List String) : Option (List Nat) :=
+      (items.filter (fun ws => match ws with | [a, _] => k.contains a && isMark ws | _ => false)).mapM
+        (fun ws => match ws with | [_, t] => t.toNat? | _ => none)
+    match i.toNat?, t.toNat?, rt.toNat?, marks ["refuse", "refusedrop"], marks ["refusedrop"],
+          (items.filter (fun ws => !isMark ws)).mapM parseIn with
+    | some i, some t, some rt, some refuse, some drop, some ins =>
+      let s := Model.Heartbeat.simulateX i t rt refuse drop ins
+      " ; ".intercalate (s.out.map Model.Heartbeat.XEv.toText) ++ " | " ++ " ".intercalate (s.h.expiries.map toString)
+    | _, _, _, _, _, _ => "bad-op"
   | _ => "bad-op"
 
 def answer (st : DState) (ws : List String) : DState × String :=
